@@ -60,6 +60,11 @@ def _one(sc, r):
     for d in scene["detectors"]:
         d["exact"] = False
     meta = scene["meta"]
+    # permeability tier wider than the permittivity tier (isotropic eps everywhere, diagonal mu in one box)
+    if meta["material_tier"] in ("none", "iso") and "tfsf" not in meta["source_kinds"] and rng.random() < 0.6:
+        ilo, ihi = scenes.interior_box(scene)
+        scene["materials"].append({"lo": [h - 2 for h in ihi], "hi": list(ihi), "mat": {"eps": 2.25, "mu": [float(x) for x in rng.uniform(1.0, 3.0, size=3)]}, "order": 7})
+        meta["mu_tier_wider_than_eps"] = True
     s0 = scene
     s1 = scenes.rotate_scene(s0)
     s2 = scenes.rotate_scene(s1)
@@ -81,6 +86,8 @@ def _one(sc, r):
     for k in kinds:
         r.branch("axis:" + k)
     r.branch("tier:" + meta["material_tier"])
+    if meta.get("mu_tier_wider_than_eps"):
+        r.branch("mu_tier_wider_than_eps")
     r.branch("grid:" + scene["grid"]["kind"])
     wit = {"case": sc, "meta": meta, "shape": scene["shape"]}
     wantE, wantH, wantD = E0, H0, D0
